@@ -44,6 +44,8 @@ _typed = st.fixed_dictionaries(
 
 _event = st.one_of(
     st.fixed_dictionaries({"cls": st.just("TypedEv"), "typed": _typed, "dyn": st.just({})}),
+    st.fixed_dictionaries({"cls": st.just("TypedEv"), "typed": _typed, "dyn": st.just({}),
+                           "in_place": st.lists(st.sampled_from(["items", "mapping", "nested", "s", "opt"]), min_size=1, max_size=3, unique=True)}),
     st.fixed_dictionaries({"cls": st.sampled_from(["PlainEv", "Event", "StartEvent"]), "typed": st.just({}), "dyn": _dyn}),
     st.fixed_dictionaries({"cls": st.just("MyStart"), "typed": st.fixed_dictionaries({"topic": st.text(max_size=6)}), "dyn": _dyn}),
     st.fixed_dictionaries({"cls": st.just("StopEvent"), "typed": st.just({}), "dyn": _dyn, "result": _json}),
@@ -113,10 +115,23 @@ class C18(Prop):
             typed["nested"] = self.pool.Inner.model_validate(typed["nested"])
             typed["when"] = datetime.fromtimestamp(typed["when"], tz=timezone.utc)
             typed["color"] = self.pool.Color(typed["color"])
+        later = {k: typed.pop(k) for k in spec.get("in_place", []) if k in typed}
         kw = {**typed, **spec["dyn"]}
         if "result" in spec:
-            return cls(result=spec["result"], **kw)
-        return cls(**kw)
+            ev = cls(result=spec["result"], **kw)
+        else:
+            ev = cls(**kw)
+        # fields left at their defaults by the constructor and filled in afterwards, as step code does
+        for k, v in later.items():
+            if k == "items":
+                ev.items.extend(v)
+            elif k == "mapping":
+                ev.mapping.update(v)
+            elif k == "nested":
+                ev.nested.x, ev.nested.tags, ev.nested.deep = v.x, v.tags, v.deep
+            else:
+                setattr(ev, k, v)
+        return ev
 
     def mk_exc(self, spec):
         return self.pool.EXCS[spec["type"]](spec["msg"])
